@@ -15,16 +15,16 @@ LEVEL = 'model_checking'
 ENGINE = 'E2-sequence-explorer'
 ENGINES = ('E2-sequence-explorer', 'E3-environment-explorer')
 TECHNIQUE = ('exhaustive enumeration (DFS with RNG-state snapshots) of all interleavings up to depth 3 of sample / failing '
-             'sample / set_random_state calls on two equal seeded models, an unseeded model and the global generator, for '
+             'sample / set_random_state / un-seed / refit / query calls on two equal seeded models, an unseeded model and the global generator, for '
              'every sampler class x seed form x prior global state; reference = cloned RandomState dictionary advanced '
              'through an unseeded twin')
 LEVEL_TEXT = ('every operation sequence up to the bound is executed on the real objects and, after each operation, the '
               'output and the complete global generator state are compared bit-for-bit with the reference model. The '
               'claim for "all seeds / all prior states" rests on this identity for the enumerated seeds plus NumPy.')
 LEVEL_NOTE = 'trusted: numpy RandomState get_state/set_state; the unseeded sampling path of the same class serves as twin'
-RULE = ('sampler zoo (16 univariate configurations incl. wrapper/KDE/constants, 3 bivariate, Gaussian multivariate plain and '
+RULE = ('sampler zoo (23 univariate configurations incl. wrapper/KDE/constants, 3 bivariate, Gaussian multivariate plain and '
         'conditional, 6 vines) x seed form {0, 12345, shared RandomState(7)} x prior global state {seed(1), seed(2), advanced} x '
-        'all sequences of length <= 3 over 8 operations (length 2 for vines and secondary priors); + 11 dataset generators x '
+        'all sequences of length <= 3 over 11 operations (length 2 for vines and secondary priors) plus 7 targeted longer histories; + 11 dataset generators x '
         '4 sizes x 3 seeds; non-trivial = every transition; distinct = distinct (model, RNG-state vector)')
 ASSUMPTIONS = ['models A, B, U and the twin are separate fits of the same specification (fit is deterministic: C19)']
 
